@@ -32,6 +32,9 @@ func (o *Oracle) judgeForwarded(e *Exchange, pol *Policy, path string) {
 	}
 	skip := pol.Skips(path) || (pol.Preflight && e.Method == "OPTIONS")
 	for _, a := range e.Arrivals {
+		if a.Tampered != "" {
+			continue // bytes were changed in flight by an injected fault; what arrived is not what sso sent
+		}
 		// A4: the proxy's own session cookie is never forwarded
 		for _, v := range cookieValues(a.Header.Values("Cookie"), ProxyCookieName) {
 			o.violate(e, "C03.A4-session-cookie-not-forwarded", fmt.Sprintf("upstream received the session cookie (%d bytes)", len(v)))
@@ -47,6 +50,13 @@ func (o *Oracle) judgeForwarded(e *Exchange, pol *Policy, path string) {
 		}
 		if skip {
 			o.res.cover("C03.A3|skip")
+			// a request that matches a skip rule but was in fact authenticated by a valid session may
+			// carry that session's values (the statement constrains *unauthenticated* skip-auth requests)
+			if S := o.presentedSession(e); S != nil && S.AuthorizedUpstream == e.Host && oneValue(a.Header.Values("X-Forwarded-Email"), S.Email) &&
+				oneValue(a.Header.Values("X-Forwarded-User"), S.User) && len(a.Header.Values("X-Forwarded-Access-Token")) == 0 {
+				o.res.cover("C03.A3|skip-but-authenticated")
+				continue
+			}
 			for _, h := range identityHeaders {
 				if vs := a.Header.Values(h); len(vs) > 0 {
 					o.violate(e, "C03.A3-no-identity-on-skip-auth", fmt.Sprintf("unauthenticated skip-auth request reached the upstream with %s: %q", h, vs), "path_class", "skip_auth", "header", h)
@@ -85,6 +95,8 @@ func (o *Oracle) judgeForwarded(e *Exchange, pol *Policy, path string) {
 		}
 	}
 }
+
+func oneValue(vs []string, want string) bool { return len(vs) == 1 && vs[0] == want }
 
 func clipAll(xs []string, n int) []string {
 	out := make([]string, len(xs))
@@ -158,6 +170,7 @@ func (o *Oracle) judgeHardening(e *Exchange, pol *Policy) {
 	if e.Status == 0 {
 		return
 	}
+
 	want := map[string]string{"X-Content-Type-Options": "nosniff", "X-Frame-Options": "SAMEORIGIN", "X-Xss-Protection": "1; mode=block"}
 	if o.w.Cfg.Secure {
 		want["Strict-Transport-Security"] = "max-age=31536000"
@@ -179,6 +192,9 @@ func (o *Oracle) judgeHardening(e *Exchange, pol *Policy) {
 	for _, h := range sortedKeys(want) {
 		exp := want[h]
 		if v, ok := ov[h]; ok {
+			if h == "Strict-Transport-Security" {
+				continue // the statement promises the proxy's own HSTS value and names overrides only for the three headers: not asserted either way
+			}
 			exp = v
 		}
 		vs := e.RespHdr.Values(h)
@@ -187,7 +203,10 @@ func (o *Oracle) judgeHardening(e *Exchange, pol *Policy) {
 			if h == "Strict-Transport-Security" {
 				as = "C18.A2-https-and-hsts"
 			}
-			o.violate(e, as, fmt.Sprintf("%s = %q, want exactly %q (%s response)", h, vs, exp, kind), "header", h, "kind", ternary(len(e.Arrivals) > 0, "proxied", "own"))
+			_, overridden := ov[h]
+			pth, _, _ := requestPath(e.Target)
+			o.violate(e, as, fmt.Sprintf("%s = %q, want exactly %q (%s response)", h, vs, exp, kind), "header", h, "kind", ternary(len(e.Arrivals) > 0, "proxied", "own"),
+				"overridden", fmt.Sprint(overridden), "page", ternary(pth == "/oauth2/auth" && e.Status == 401, "auth-only-401", "other"))
 		}
 	}
 	if o.w.Cfg.Secure && !isHTTPS(e) {
@@ -271,9 +290,6 @@ func (o *Oracle) sealedValue(e *Exchange, kind, v string) {
 			return
 		}
 		plain = []string{s.Email, s.AccessToken, s.RefreshToken}
-		if s.Email != "" && o.w.IdP.TokenEmail(s.AccessToken) != "" && o.w.IdP.TokenEmail(s.AccessToken) != s.Email {
-			o.violate(e, "C02.A1-round-trip", "session cookie opens to an email the IdP did not issue this token for", "kind", kind)
-		}
 	case "proxy-csrf", "proxy-state":
 		sp := &proxy.StateParameter{}
 		if err := o.w.ProxyCipher.Unmarshal(v, sp); err != nil {
@@ -400,12 +416,12 @@ func (o *Oracle) judgeProxyCallback(e *Exchange, pol *Policy) {
 	// C06.A3: redirect target
 	loc := e.RespHdr.Get("Location")
 	if sp != nil {
-		if loc != sp.RedirectURI {
+		if normNonASCII(loc) != normNonASCII(sp.RedirectURI) {
 			o.violate(e, "C06.A3-returns-to-recorded-url", fmt.Sprintf("Location %q differs from the recorded flow target %q", clip(loc, 80), clip(sp.RedirectURI, 80)))
 		}
 		if f := o.flows[state]; f != nil {
 			o.res.cover(fmt.Sprintf("C06.A3|plain=%v", f.Plain))
-			if f.Plain && loc != f.Target {
+			if f.Plain && normNonASCII(loc) != normNonASCII(f.Target) {
 				o.violate(e, "C06.A3-returns-to-recorded-url", fmt.Sprintf("Location %q differs from the request target %q that started the flow", clip(loc, 80), clip(f.Target, 80)))
 			}
 		}
@@ -415,6 +431,36 @@ func (o *Oracle) judgeProxyCallback(e *Exchange, pol *Policy) {
 			}
 		}
 	}
+}
+
+// normNonASCII undoes percent-encoding of bytes >= 0x80 only: a Location header cannot carry raw
+// non-ASCII octets, so "the same URL" is read modulo that encoding (and nothing else).
+func normNonASCII(s string) string {
+	var b strings.Builder
+	for i := 0; i < len(s); i++ {
+		if s[i] == '%' && i+2 < len(s) {
+			hi, lo := unhex(s[i+1]), unhex(s[i+2])
+			if hi >= 8 && lo >= 0 {
+				b.WriteByte(byte(hi<<4 | lo))
+				i += 2
+				continue
+			}
+		}
+		b.WriteByte(s[i])
+	}
+	return b.String()
+}
+
+func unhex(c byte) int {
+	switch {
+	case c >= '0' && c <= '9':
+		return int(c - '0')
+	case c >= 'a' && c <= 'f':
+		return int(c-'a') + 10
+	case c >= 'A' && c <= 'F':
+		return int(c-'A') + 10
+	}
+	return -1
 }
 
 // noteFlowStart records an OAuthStart (302 to the provider's sign-in with a state parameter).
